@@ -9,7 +9,9 @@
   merged step joins the ancestors of the first step's `to` directly onto the ancestors of the second
   step's `from` and runs `check_join` on that pair of node types at every level above the (second) slice:
   exactly the levels `0 … depth(first.from) − 1` of the original document.  `compatible_content` is
-  symmetric but not transitive, so this has to be asked for.
+  symmetric but not transitive, so this has to be asked for.  The guard is exact: under the other hypotheses
+  of `C16.merge_succeeds_replace` the merged step applies if and only if it holds
+  (`C16.merge_succeeds_replace_iff`).
   A specification predicate over the model's data (not a model of a library function); the harness ties it
   to the same condition computed with `ResolvedPos.node(d)` and `NodeType.compatible_content` of the real
   code (driver op `mergeCompat`).
